@@ -27,8 +27,9 @@ TRUSTED_BASE = [
 ASSUMPTIONS = [
     "the textual form of the queried prefix is not modelled: a request carries address bits and a length, the harness renders them with std's Display; "
     "Prefix::from_str is taken to reject exactly a length beyond the family's and non-zero host bits",
+    "community attributes of the populations are well-formed (length a multiple of the member size); a malformed one is C04's subject",
     "lossy UTF-8 conversion of decoded parameter text is the identity in the model (never creates or removes an ASCII byte, so no keyword or number is affected)",
-    "community text: dotted-quad global administrators (rt:1.2.3.4:5) and non-ASCII case folding are not modelled and not generated",
+    "community text: dotted-quad global administrators (rt:1.2.3.4:5) are not modelled and not generated; a non-ASCII filter value is refused before any parser sees it (request.rs), which the model reaches through the parsers refusing it",
     "the order of entries inside a section is not observed (sorted multiset); `sort` only reorders inside a one-element list in the code",
     "every announcement carries a unique MED, used as the identity of its attribute set in observations",
     "HTTP dispatch (method, path prefix, the 3-segment ingress-id query) belongs to C12 and is not part of the line protocol",
@@ -86,17 +87,19 @@ def gen_comms(rng):
     kinds = kinds[:nk]
     if rng.chance(50):      # the order of the type codes (what a well-behaved speaker sends)
         kinds.sort(key=lambda k: KIND_CODE[k])
+    if rng.chance(8):       # the same attribute twice (routecore takes it; every one of them is searched)
+        kinds.insert(rng.range(0, len(kinds)), rng.choice(kinds))
     attrs = []
     for k in kinds:
         pool = [h for h, _ in CPOOL[k]]
-        n = min(len(pool), rng.weighted([(1, 40), (2, 35), (3, 25)]))
+        n = min(len(pool), rng.weighted([(0, 4), (1, 38), (2, 34), (3, 24)]))   # 0: an attribute without members
         members = []
         while len(members) < n:
             m = rng.choice(pool)
             if m not in members:
                 members.append(m)
         attrs.append((k, members))
-    items = [("%s=%s" % (k, ",".join(ms))) if not (k == "s" and rng.chance(40)) else ",".join(str(int(m, 16)) for m in ms) for k, ms in attrs]
+    items = [("%s=%s" % (k, ",".join(ms))) if not (k == "s" and ms and rng.chance(40)) else ",".join(str(int(m, 16)) for m in ms) for k, ms in attrs]
     if rng.chance(30):
         items.insert(rng.range(0, len(items)), "*")
     return "/".join(items), attrs
@@ -126,7 +129,8 @@ def gen_targeted(rng, route, asns, af_tok):
             if truth and cattrs:
                 ai = rng.choice([0, len(cattrs) - 1, len(cattrs) // 2, rng.below(len(cattrs))])
                 k, ms = cattrs[ai]
-                val = comm_text(rng, k, rng.choice([ms[0], ms[-1]]))
+                if ms:
+                    val = comm_text(rng, k, rng.choice([ms[0], ms[-1]]))
             if val is None:
                 # one the route does not carry, by preference of a kind it does carry (so the attribute is there, the member not)
                 carried = {(k, m) for k, ms in cattrs for m in ms}
@@ -440,13 +444,17 @@ def classify(case, out):
                     continue
                 if "=" in item:
                     k, vals = item.split("=", 1)
-                    attrs.append((k, vals.split(",")))
+                    attrs.append((k, [v for v in vals.split(",") if v]))
+                    if not vals:
+                        ks.append("case:community-attribute-without-members")
                 else:
                     attrs.append(("s", ["%08x" % int(c) for c in item.split(",")]))
             routes.append(attrs)
             if len(attrs) >= 2:
                 ks.append("case:route-with-%d-community-attributes" % len(attrs))
                 codes = [KIND_CODE[k] for k, _ in attrs]
+                if len(set(codes)) < len(codes):
+                    ks.append("case:community-attribute-twice")
                 ks.append("case:community-attributes-" + ("in-type-order" if codes == sorted(codes) else "shuffled"))
             if f[6].split("/")[0] != "*" and "*" in f[6].split("/"):
                 ks.append("case:community-attribute-before-origin")
@@ -524,6 +532,9 @@ def corpus():
         "Q 4 0a000000/8 select[community]=4200000001:0:4294967295;Q 4 0a000000/8 discard[community]=65000:1:2;Q 4 0a000000/8 discard[community]=AS65000:100;"
         "Q 4 0a000000/8 select[community]=0x0000000000000064;Q 4 0a000000/8 select[community]=0:100;Q 4 0a000000/8 select[community]=65000:1:3;Q 4 0a000000/8 discard[community]=65000:1:3;"
         "Q 4 0a000000/8 select[community]=0x0000000000000000000000000002FDE800000064;Q 4 0a000000/8 select[community]=0x0002FDE800000064",
+        # an attribute without members / the same attribute twice in front of the one that has the community
+        "P 0 65001;A 0 0 0a000000/8 1 65001 l=/s=fde80064;A 0 0 0a000000/9 2 65001 s=ffffff01/e=0002fde800000064/s=fde80064;Q 4 0a000000/8 select[community]=65000:100;"
+        "Q 4 0a000000/8 discard[community]=65000:100;Q 4 0a000000/9 select[community]=65000:100;Q 4 0a000000/9 discard[community]=65000:100;Q 4 0a000000/9 select[community]=NO_EXPORT",
         # a community of the LAST attribute together with the other filter kinds: every kind true and false, select / discard, any / all
         "P 0 65001;P 1 65002;A 0 0 0a000000/8 1 65001,65002 4294967041/e=0002fde800000064/l=0000fde80000000100000002;A 1 0 0a000000/8 2 65002 e=0003fde800000064/4259840100;"
         "Q 4 0a000000/8 select[community]=65000:1:2&select[as_path]=65001,65002&filter_op=all;Q 4 0a000000/8 select[community]=65000:1:2&select[as_path]=65002&filter_op=all;"
